@@ -118,7 +118,7 @@ def wl_C03(tier, rng):
                 break
             i, j = gen.pick_pair(rng, n)
             ops.append(f"q 0 hasEdgeL {i} {j} {gen.label_tok(rng, kind)}")
-            ops.append(f"q 0 getEdgeLabel {i} {j} {rng.randint(0, 1)}")
+            ops.append(f"q 0 getEdgeLabel {i} {j} {rng.choice([0, 1, 'd'])}")
         yield (meta, ops)
 
 
@@ -138,6 +138,13 @@ def big_multiplicity_family(tier, rng):
             c, d = gen.pick_pair(rng, n)
             ops += [f"addMultiedge 0 {c} {d} 1 0", f"setEdgeMultiplicity 0 {c} {d} {rng.choice(big)}",
                     f"q 0 getEdgeMultiplicity {c} {d}", f"setEdgeMultiplicity 0 {c} {d} 1",
+                    "dump 0"]
+            # a small removal from a huge multiplicity, and a huge removal from a small one (differences >= 2^31)
+            e, f = gen.pick_pair(rng, n)
+            ops += [f"setEdgeMultiplicity 0 {e} {f} {rng.choice([3000000000, 4294967295, 2147483649])}", f"removeEdge 0 {e} {f}",
+                    f"q 0 getEdgeMultiplicity {e} {f}", f"removeMultiedge 0 {e} {f} {rng.choice([1, 2, 7])}", "dump 0",
+                    f"setEdgeMultiplicity 0 {e} {f} {rng.choice([1, 2, 3])}", f"removeMultiedge 0 {e} {f} {rng.choice([4000000000, 2147483650, 4294967295])}",
+                    f"q 0 hasEdge {e} {f}", "dump 0",
                     f"removeVertexFromEdgeList 0 {rng.randrange(n)}", "dump 0"]
             yield ({"cls": cls, "kind": "-", "n": n, "len": len(ops), "family": "big-mult"}, ops)
 
@@ -147,7 +154,22 @@ def wl_C04(tier, rng):
     yield from wl_statemachine(MULTI, tier, rng)
 
 
+def pow2_scale_family(tier, rng, count):
+    """weighted histories whose weights are multiplied by 2^-70 or 2^70 (`mode wscale`): exact in binary floating
+    point, but far below / above 1, where an absolute tolerance or a narrowing goes wrong"""
+    for _ in range(count):
+        cls = rng.choice(WEIGHTED)
+        a, b = rng.choice([(1, 2 ** 70), (2 ** 70, 1), (1, 2 ** 60)])
+        meta, ops = gen.random_history(rng, cls, "-", nmax=5, lmax=25)
+        # (addReciprocalEdge of the weighted class creates edges of weight 1 / 0 itself, which no scale applies to)
+        ops = ops[:1] + [f"mode wscale {a} {b}"] + [l for l in ops[1:] if not l.startswith("addReciprocalEdge")]
+        meta["family"] = "pow2-scale"
+        meta["len"] = len(ops)
+        yield (meta, ops)
+
+
 def wl_C05(tier, rng):
+    yield from pow2_scale_family(tier, rng, scale(tier, 150, 3000))
     yield from wl_statemachine(WEIGHTED, tier, rng)
 
 
@@ -338,18 +360,18 @@ def invalid_calls(cls, kind, n, rng, full=True, okv=0):
                 for fl in flagsets:
                     calls.append(fmt.format(i=x, j=y, f=fl))
     if cls in SIMPLE:
-        two("addEdge 0 {i} {j} 5 {f}", [0, 1])
+        two("addEdge 0 {i} {j} 5 {f}", [0, 1, "d"])
         if cls == "dir":
-            two("addReciprocalEdge 0 {i} {j} 5 {f}", [0, 1])
+            two("addReciprocalEdge 0 {i} {j} 5 {f}", [0, 1, "d"])
         two("removeEdge 0 {i} {j}", [0])
         two("q 0 hasEdge {i} {j}", [0])
         two("q 0 hasEdgeL {i} {j} 5", [0])
-        two("q 0 getEdgeLabel {i} {j} {f}", [0, 1])
+        two("q 0 getEdgeLabel {i} {j} {f}", [0, 1, "d"])
         if kind != "none":
-            two("setEdgeLabel 0 {i} {j} 5 {f}", [0, 1])
+            two("setEdgeLabel 0 {i} {j} 5 {f}", [0, 1, "d"])
     elif cls in MULTI:
-        two("addEdge 0 {i} {j} {f}", [0, 1])
-        two("addMultiedge 0 {i} {j} 2 {f}", [0, 1])
+        two("addEdge 0 {i} {j} {f}", [0, 1, "d"])
+        two("addMultiedge 0 {i} {j} 2 {f}", [0, 1, "d"])
         two("addMultiedge 0 {i} {j} 0 {f}", [0])
         if cls == "dmulti":
             two("addReciprocalEdge 0 {i} {j} {f}", [0, 1])
@@ -360,13 +382,13 @@ def invalid_calls(cls, kind, n, rng, full=True, okv=0):
         two("q 0 hasEdge {i} {j}", [0])
         two("q 0 getEdgeMultiplicity {i} {j}", [0])
     else:
-        two("addEdge 0 {i} {j} 6 {f}", [0, 1])
+        two("addEdge 0 {i} {j} 6 {f}", [0, 1, "d"])
         if cls == "dw":
             two("addReciprocalEdge 0 {i} {j} {f}", [0, 1])
         two("removeEdge 0 {i} {j}", [0])
         two("setEdgeWeight 0 {i} {j} 6", [0])
         two("q 0 hasEdge {i} {j}", [0])
-        two("q 0 getEdgeWeight {i} {j} {f}", [0, 1])
+        two("q 0 getEdgeWeight {i} {j} {f}", [0, 1, "d"])
     for bv in bad:
         calls.append(f"removeVertexFromEdgeList 0 {bv}")
         calls.append(f"q 0 getOutNeighbours {bv}")
@@ -376,6 +398,7 @@ def invalid_calls(cls, kind, n, rng, full=True, okv=0):
         else:
             calls.append(f"q 0 getDegree {bv} 0")
             calls.append(f"q 0 getDegree {bv} 1")
+            calls.append(f"q 0 getDegree {bv} d")
             if cls == "und":
                 calls.append(f"q 0 getNeighbours {bv}")
     if n > 0:
@@ -410,10 +433,10 @@ def missing_edge_calls(cls, kind, n, rng):
     for _ in range(4):
         i, j = gen.pick_pair(rng, n)
         if cls in SIMPLE and kind != "none":
-            calls.append(f"setEdgeLabel 0 {i} {j} 4 0")
-            calls.append(f"q 0 getEdgeLabel {i} {j} 1")
+            calls.append(f"setEdgeLabel 0 {i} {j} 4 {rng.choice([0, 'd'])}")
+            calls.append(f"q 0 getEdgeLabel {i} {j} {rng.choice([1, 'd'])}")
         if cls in WEIGHTED:
-            calls.append(f"q 0 getEdgeWeight {i} {j} 1")
+            calls.append(f"q 0 getEdgeWeight {i} {j} {rng.choice([1, 'd'])}")
     return calls
 
 
@@ -776,6 +799,10 @@ def wl_C11(tier, rng):
                 t = rng.randrange(n)
                 ops += [f"geodesic 0 {s} {t}", f"allgeodesics 0 {s} {t}" if n <= 14 else f"geodesic 0 {t} {s}"]
         yield ({"cls": cls, "kind": kind, "n": n, "len": len(ops)}, ops)
+    # geodesics with very many hops (path graphs): nothing may recurse on the hop count
+    for cls_ in ("dir", "und"):
+        ops = [f"chainpath {cls_} {k}" for k in (1, 2, 3, 1000, scale(tier, 300000, 1500000))]
+        yield ({"cls": cls_, "kind": "none", "n": 0, "len": len(ops), "family": "chainpath"}, ops)
     # findSourceVertex on arbitrary distance vectors: first zero, or invalid_argument
     for _ in range(scale(tier, 40, 600)):
         ops = []
@@ -888,6 +915,18 @@ def wl_C12(tier, rng):
         ops = weighted_ops(cls, n, wes) + [f"dijkstra 0 {s_}" for s_ in rng.sample(wide.special(n), min(4, len(wide.special(n))))]
         yield ({"cls": cls, "kind": "-", "n": n, "len": len(ops), "family": "wide"}, ops)
     yield from scaled_weight_family(tier, rng, scale(tier, 60, 1200))
+    # arbitrary weights at a power-of-two scale far below 1 (all sums exact; improvements smaller than any absolute tolerance)
+    for _ in range(scale(tier, 150, 3000)):
+        cls = rng.choice(WEIGHTED)
+        n = rng.randint(2, scale(tier, 8, 14))
+        es = rand_edges(rng, n, density=rng.choice([0.2, 0.4, 0.7]))
+        if cls == "uw":
+            es = und_canon(es)
+        wes = [(i, j, rng.choice([0, 1, 2, 3, 4, 8, rng.randint(0, 12)])) for (i, j) in es]
+        ops = weighted_ops(cls, n, wes)
+        ops.insert(1, f"mode wscale 1 {2 ** rng.choice([60, 70, 200])}")
+        ops += [f"dijkstra 0 {s_}" for s_ in rng.sample(range(n), min(n, 3))]
+        yield ({"cls": cls, "kind": "-", "n": n, "len": len(ops), "family": "pow2-scale"}, ops)
     # zero-weight cycles
     for n in range(2, scale(tier, 8, 16)):
         for cls in WEIGHTED:
